@@ -176,7 +176,7 @@ impl<'a, N: Name> DependencyProvider for Prov<'a, N> {
         match self.reg.pkgs.get(&pid).and_then(|m| m.get(v)) {
             None | Some(None) => {
                 sh.trace.push(Ev::Deps(pid, *v, DepsAns::Unavail));
-                Ok(Dependencies::Unavailable("u".to_string()))
+                Ok(Dependencies::Unavailable(unavail_reason(pid, *v)))
             }
             Some(Some(ds)) => {
                 let mut map: pubgrub::Map<N, R> = pubgrub::Map::default();
@@ -215,6 +215,23 @@ pub fn tree_sx<N: Name>(t: &DerivationTree<N, R, String>) -> String {
     }
 }
 
+/// the reason given for an unavailable (package, version): distinct per version, so that a Custom leaf of a derivation
+/// tree can be checked against what the provider said for every version in its set
+pub fn unavail_reason(p: u32, v: u32) -> String { format!("unavailable-{}-{}", p, v) }
+
+/// 1 iff every Custom leaf carries, for every registry version of its package inside its set, exactly the reason the
+/// provider gave for that version (oracle on the implementation's own tree: the metadata is not part of the model's tree text)
+pub fn custom_reasons_ok<N: Name>(t: &DerivationTree<N, R, String>, reg: &Registry) -> bool {
+    match t {
+        DerivationTree::External(External::Custom(p, s, m)) => {
+            let pid = p.id();
+            reg.pkgs.get(&pid).map(|vs| vs.keys().filter(|v| s.contains(v)).all(|v| *m == unavail_reason(pid, *v))).unwrap_or(true)
+        }
+        DerivationTree::External(_) => true,
+        DerivationTree::Derived(d) => custom_reasons_ok(&d.cause1, reg) && custom_reasons_ok(&d.cause2, reg),
+    }
+}
+
 pub fn ev_sx(e: &Ev) -> String {
     match e {
         Ev::Cancel(ok) => format!("(c {})", *ok as u8),
@@ -248,6 +265,7 @@ fn run_once_raw<N: Name>(reg: &Registry, root: (u32, u32), choose: &ChooseMode, 
     *slot.lock().unwrap_or_else(|e| e.into_inner()) = Some(prov.sh.clone());
     let r = std::panic::catch_unwind(std::panic::AssertUnwindSafe(|| resolve(&prov, N::of(root.0), root.1)));
     let mut report = String::new();
+    let mut creason = true;
     let result = match r {
         Err(_) => "(panic)".to_string(),
         Ok(Ok(sol)) => {
@@ -259,6 +277,7 @@ fn run_once_raw<N: Name>(reg: &Registry, root: (u32, u32), choose: &ChooseMode, 
             // the default text report and the Debug rendering (both depend on map iteration order)
             use pubgrub::Reporter;
             report = format!("{}\n{:?}", pubgrub::DefaultStringReporter::report(&t), t);
+            creason = custom_reasons_ok(&t, reg);
             format!("(nosol {})", tree_sx(&t))
         }
         Ok(Err(PubGrubError::ErrorInShouldCancel(e))) => if e.0 == "budget" { "(budget)".into() } else { "(errcancel)".into() },
@@ -267,7 +286,7 @@ fn run_once_raw<N: Name>(reg: &Registry, root: (u32, u32), choose: &ChooseMode, 
         Ok(Err(PubGrubError::Failure(m))) => format!("(failure {})", if m.contains("incompatible") { 1 } else { 0 }),
     };
     let mut sh = prov.sh.lock().unwrap_or_else(|e| e.into_inner());
-    RunOut { trace: std::mem::take(&mut sh.trace), result, branching: std::mem::take(&mut sh.branching), report, store: store_sx() }
+    RunOut { trace: std::mem::take(&mut sh.trace), result, branching: std::mem::take(&mut sh.branching), report, store: format!("{} (creason {})", store_sx(), creason as u8) }
 }
 
 // Every run happens on a long-lived worker thread under a watchdog: a run that does not return within
@@ -294,7 +313,7 @@ fn spawn_worker() -> Worker {
 thread_local! { static WORKERS: RefCell<Vec<Worker>> = RefCell::new(vec![spawn_worker(), spawn_worker()]); }
 
 fn hang_out(trace: Vec<Ev>) -> RunOut {
-    RunOut { trace, result: "(hang)".into(), branching: vec![], report: String::new(), store: "(store)".into() }
+    RunOut { trace, result: "(hang)".into(), branching: vec![], report: String::new(), store: "(store) (creason 1)".into() }
 }
 
 fn unfinished(o: &RunOut) -> bool { o.result == "(hang)" || o.result == "(skipped)" }
